@@ -74,9 +74,9 @@ EnterInvocationUndocumented(ci) ==
      /\ rqa' = ReqStep(rqa, c, N + 1, AllOn)
   /\ UNCHANGED <<pc, inc>>
 
-Next == \/ \E ci \in 1..Len(CmdSeq) : TRUE \in DocChoices /\ EnterDocumentedCommand(ci)
-        \/ EnterInvocationOfDocumented
-        \/ \E ci \in 1..Len(CmdSeq) : FALSE \in DocChoices /\ EnterInvocationUndocumented(ci)
+DocumentedStep == \E ci \in 1..Len(CmdSeq) : TRUE \in DocChoices /\ EnterDocumentedCommand(ci)
+UndocumentedStep == \E ci \in 1..Len(CmdSeq) : FALSE \in DocChoices /\ EnterInvocationUndocumented(ci)
+Next == DocumentedStep \/ EnterInvocationOfDocumented \/ UndocumentedStep
 
 Spec == Init /\ [][Next]_vars
 
